@@ -26,7 +26,7 @@ def target_names(t):
     return out
 
 
-def deps(f, sources=None):
+def deps(f, sources=None, cut=None):
     """Flow-insensitive dependency closure: for each local name, the set of `sources`
     (default: the parameters) whose value can flow into it through assignments,
     augmented assignments, for/with/comprehension bindings and mutator calls
@@ -39,6 +39,8 @@ def deps(f, sources=None):
         d.setdefault(s, {s})
 
     def ed(expr):
+        if cut is not None and cut(expr):
+            return set()
         out = set()
         for n in names_in(expr):
             out |= d.get(n, set())
